@@ -321,7 +321,7 @@ def check_sso(case):
             e2 = float(sso(a=a, i=inc))
         # e = sqrt(1 - sqrt(X)): an error eps on X is eps / (4 e) on e, at most sqrt(eps / 2) at e = 0;
         # X itself carries eps * tan(i) from the inclination
-        eps = 4e-16 * (1 + abs(math.tan(inc)))
+        eps = 1e-13 * (1 + abs(math.tan(inc)))
         te = 1e-9 + min(math.sqrt(eps), eps / max(e, 1e-300))
         if not math.isfinite(e2):
             raise Violation("sso-inverse-e-nan", f"sso(a={a!r}, i={inc!r}) = {e2} where e = {e!r} is a solution ({lab} i)",
@@ -586,7 +586,7 @@ def check_beta(case):
         cls.append("|beta|>89.9deg")
     if el["e"] > 1:
         cls.append("hyperbolic")
-    return dict(nt=True, cls=cls, ratio=err / tol)
+    return dict(nt=True, cls=cls, ratio=err / tol, parts={ref: err / tol})
 
 
 # ------------------------------------------------------------------ B-plane
